@@ -7,6 +7,7 @@
 #![allow(clippy::all)]
 #![allow(dead_code)]
 
+mod big;
 mod engine;
 mod galloc;
 mod groups;
